@@ -16,17 +16,18 @@ import (
 type cCase struct {
 	ID   int    `json:"id"`
 	Base string `json:"base"` // the rule set installed before the text is submitted
+	Mid  string `json:"mid"`  // optional: an incremental text applied after Base and before the text (so Base may equal the text)
 	Text string `json:"text"`
 }
 
 type cEntryObs struct {
-	Entry  string   `json:"entry"`
-	Panic  string   `json:"panic,omitempty"`
-	Err    bool     `json:"err"`
-	ErrMsg string   `json:"errmsg,omitempty"`
-	Before []string `json:"before"`
-	After  []string `json:"after"`
-	IndexOK bool    `json:"index_ok"`
+	Entry   string   `json:"entry"`
+	Panic   string   `json:"panic,omitempty"`
+	Err     bool     `json:"err"`
+	ErrMsg  string   `json:"errmsg,omitempty"`
+	Before  []string `json:"before"`
+	After   []string `json:"after"`
+	IndexOK bool     `json:"index_ok"`
 }
 
 type cObs struct {
@@ -104,6 +105,12 @@ func runCompileCase(c *cCase) cObs {
 				continue
 			}
 		}
+		if c.Mid != "" {
+			if e := rb.BuildRuleWithIncremental(c.Mid); e != nil {
+				add(cEntryObs{Entry: entry, Panic: "mid does not compile: " + e.Error()})
+				continue
+			}
+		}
 		o := cEntryObs{Entry: entry}
 		o.Before, _ = builderRules(rb)
 		e, p := guard(func() error {
@@ -144,6 +151,12 @@ func runCompileCase(c *cCase) cObs {
 		}
 		if c.Base == "" {
 			gp.ClearPoolRules()
+		}
+		if c.Mid != "" {
+			if e := gp.UpdatePooledRulesIncremental(c.Mid); e != nil {
+				add(cEntryObs{Entry: entry, Panic: "mid does not compile: " + e.Error()})
+				continue
+			}
 		}
 		o := cEntryObs{Entry: entry, IndexOK: true}
 		o.Before = poolRules(gp)
